@@ -70,6 +70,10 @@ func Monitor(spec *Spec, tr *Trace) []Finding {
 		add("C16", "Run can never return: idle tick with nothing ready, nothing in progress and unfinished vertices (%s) after history %v", tr.DeadlockSnap, spec.Hist)
 		return f
 	}
+	if tr.Stalled != "" {
+		add("C16", "Run makes no progress although every started task has returned: %s (history %v, plan %v)", tr.Stalled, spec.Hist, spec.Plan)
+		return f
+	}
 	if tr.Timeout != "" {
 		return f // inconclusive, decided by the caller
 	}
@@ -303,6 +307,9 @@ func Monitor(spec *Spec, tr *Trace) []Finding {
 			}
 			if sawLine && tr.RunErr[gi] == "" {
 				add("C14", "cancellation was observed (logged) but Run returned nil")
+			}
+			if tr.TicksAfterCancel >= 3 && tr.RunErr[gi] == "" && gi == 0 {
+				add("C14", "cancel() had returned and the scheduler went through %d more idle iterations before Run returned, yet Run returned nil (cancellation during the last in-flight tasks is not reported)", tr.TicksAfterCancel)
 			}
 			for _, e := range tr.Events {
 				if e.Kind == EvEnter && e.Seq > tr.CancelSeq {
